@@ -10,6 +10,7 @@ LEAN_MODULES = ['MV.Props.C11']
 LEAN_HELPERS = ['MV.Lemmas.Renotate', 'MV.Lemmas.RenotateScore', 'MV.Lemmas.RenotateEvents', 'MV.Lemmas.RenotateSplit', 'MV.Lemmas.RenotateNames', 'MV.Model.Renotate', 'MV.Model.Render',
                 'MV.Model.Pitch', 'MV.Model.Rel', 'MV.Model.Basic', 'MV.Model.Types']
 DRIVERS = ['C11']
+SRC_TIE = ['SrcConv']   # py2lean source images of the note / melody / chord / score conversions and of the octave correction, proved equal to the model (MV/Props/TieSrcConv.lean)
 GEN = ['Tables', 'Library']
 RULE = ('random scores: 1-3 chords (any figure with modifiers, tonic, mode, octaves), 1-3 parts (one may be a drum '
         'part), all note systems s h c b a, relative kinds su..bd, drum notes, accidentals, per-note modes, rests '
@@ -356,6 +357,10 @@ def correspondence(ctx):
                       'input': {'melody': str(m), 'start': frac_str(a), 'end': frac_str(b)},
                       'bucket': ['cut-head' if a > 0 else 'from-start', 'beyond-end' if b > total else 'inside']})
     ctx.compare('between', 'C11', cases)
+
+    # kernel-level streams of the source tie (DESIGN §9.6): real function vs model, real function vs generated source image
+    import srctie
+    srctie.run(ctx, SRC_TIE)
 
 
 # ----------------------------------------------------------------------------- oracle (independent of the model)
